@@ -171,8 +171,10 @@ def _run(ctx):
         somes = []
         for e in pushes:
             for val, dbb in ctx.alternatives(v, e['bb'], TERM_IDX, e['args'][0]):
-                if val.tag == 'adt' and val[1].endswith('Option::Some'):
-                    somes.append((e, val, dbb))
+                # (a definition that is itself one of several values -- the payload of `opt.map(f).transpose()?` -- counts per value)
+                for val_ in (val.args if val.tag == 'phi' else (val,)):
+                    if val_.tag == 'adt' and val_[1].endswith('Option::Some'):
+                        somes.append((e, val_, dbb))
         rep.floor('R-C10-4', 'Some(mask) push sites', len(somes), 1)
         for e, val, dbb in somes:
             pcs = ctx.path_conditions(v, e['bb']) + (ctx.path_conditions(v, dbb) if dbb != e['bb'] else [])
